@@ -19,7 +19,9 @@ META = {
         "writeSample never fails with 'reached maximum segment size' (small payloads); fMP4 part marshalling succeeds",
         "Muxer.Start defaults (PartMinDuration 200 ms, SegmentMinDuration 1 s, SegmentCount 7) are applied by the harness, not modelled",
         "property theorems: clock rate <= 1 MHz, sample duration in [2.5 ms, 1 s], PartMinDuration in [50 ms, 2 s]; regularity theorems "
-        "additionally need c19_side (implied by a whole-millisecond PartMinDuration) - see the *_refuted theorems",
+        "additionally need c19_side (implied by a whole-millisecond PartMinDuration; decidable, c19_side_decidable) - see the *_refuted theorems; "
+        "text equality additionally needs clockRate <= 5000*gcd(200000, clockRate), discharged for the 14 standard clock rates only",
+        "oracle signatures end in side-fails / side-holds = the harness's evaluation of c19_side, re-computed by Coq (CSide, code 10); only side-fails irregularities are known findings",
     ],
 }
 
@@ -69,7 +71,8 @@ def run(ctx):
     if ctx["model_available"] and not ctx["widen"]:
         kinds = {1: "pure-function-result", 2: "completed-segments-parts", 3: "current-segment-parts",
                  4: "adjusted-part-duration-or-freeze", 5: "part-target-trace", 6: "part-duration-changed-reports",
-                 7: "retained-segments", 8: "playlist-view", 9: "model-did-not-return-a-state"}
+                 7: "retained-segments", 8: "playlist-view", 9: "model-did-not-return-a-state",
+                 10: "c19_side-verdict-of-the-harness"}
         for res in vlib.eval_shards(out, jobs=16):
             if not res["ok"]:
                 t.errors.append("model evaluation failed on %s: %s" % (res["shard"], res["error"]))
